@@ -334,12 +334,17 @@ def has_default(t):
     if k == 'array':
         return t[1] <= 32 and has_default(t[2])
     if k == 'prod':
+        if isinstance(t[1], tuple) and t[1][0] == 'struct':      # the harness items that derive Default
+            return t[1][1] in DEFAULT_ITEMS and all(has_default(x) for x in t[2])
         return t[1] == 'tuple' and len(t[2]) <= 12 and all(has_default(x) for x in t[2])
     if k == 'sum':
         return t[1] == 'option'
     if k == 'wrap':
-        return t[1] in ('box', 'rc', 'arc', 'cell', 'refcell') and has_default(t[2])
+        return t[1] in ('box', 'rc', 'arc', 'cell', 'refcell', 'cow') and (has_default(t[2]) or t[2] == ('text', 'str'))
     return False
+
+
+DEFAULT_ITEMS = {'SInnerD'}
 
 
 def wf(t):
